@@ -86,7 +86,11 @@ def main(tier, seed):
     tf = use_impl()
     from tinyflux.point import validate_tags, validate_fields
     from tinyflux.storages import MemoryStorage
-    b = ck.build_proofs("Prop_C14", extra_targets=["Valid.vo"])
+    def regen():
+        rc, out = sh([PY, str(VERIF / "harness" / "py2coq_valid.py"), str(REPO / "tinyflux" / "point.py"), str(COQ / "gen" / "ValidGen.v")], timeout=60)
+        regen.refused = [l for l in out.splitlines() if l.startswith("REFUSED")]
+    regen.refused = []
+    b = ck.build_proofs("Prop_C14", pre=regen, extra_targets=["Valid.vo"])
     U = universe()
     rows, direct_bad, n_checks = [], [], 0          # rows: (coq expression : bool, implementation's answer : bool, description)
 
@@ -220,6 +224,8 @@ def main(tier, seed):
         "trusted_base": TRUSTED_BASE_COMMON + ["hand model Valid.v of the validators / setters / argument checks, tied by correspondence on the whole value universe",
                                                "Print Assumptions: " + json.dumps(b["assumptions"])],
         "theorems": b["theorems"], "forbidden_tokens_found": b["forbidden"],
+        "translator": {"source": "tinyflux/point.py: validate_tags, validate_fields -> coq/gen/ValidGen.v (regenerated on this run)",
+                       "refused": regen.refused, "equivalence_theorems": ["gen_validate_tags_eq", "gen_validate_fields_eq"]},
         "evaluations": len(rows) + n_checks, "distinct_nontrivial": len({r[2] for r in rows if not r[1]}),
         "rule": f"value universe of {len(U)} values (every kind of atom, single-entry dicts over all key x value kinds, two-entry dicts with a good entry next to a bad one) x "
                 "slots {time, measurement, tags, fields} x entry points {validate_*, Point(...), attribute assignment, db/measurement update and update_all with a "
